@@ -33,7 +33,7 @@ TECHNIQUE = ("explicit-state BFS over rewrite sequences on real Pipeline objects
 RULE = ("bases: 13 hand-picked G-DAG pipelines (chain, diamond, fan-in, tuple-output leaf / interior, nullary, signature / PipeFunc default, bound root / "
         "upstream, renamed, disconnected, shared root) + the five MapSpec pipelines of C03; thorough adds ALL G-DAG pipelines with N<=3 functions and the "
         "default/bound decorations of N<=2. Alphabet: copy, cloudpickle round trip, join and | with a disjoint fresh pipeline, update_renames (every root / "
-        "output -> fresh name), update_scope('s') on inputs / outputs / both and update_scope(None) likewise (thorough: re-scoping to 't'), nest_funcs "
+        "output -> fresh name), update_renames(..., overwrite=True) after earlier renamings (all undone), nest of a pair with ONE exported name (new_output_name = last output of the leaf), function-level update_scope with exclude and pipeline-level update_scope with exclude, update_scope('s') on inputs / outputs / both and update_scope(None) likewise (thorough: re-scoping to 't'), nest_funcs "
         "(every convex subset of >= 2 top-level nodes with one leaf, in place and on a copy, and '*'), simplified_pipeline(every node, both "
         "conservatively_combine), split_disconnected (every component), add_mapspec_axis(every root, fresh axis; thorough: a second axis and zipping "
         "another root onto an added axis). BFS over sequences of length <= 2 (quick; thorough: <= 3 for the hand-picked bases and N<=2, <= 2 for the "
@@ -342,6 +342,20 @@ def apply_impl(p, op, m):  # noqa: C901, PLR0911, PLR0912
     if k == "rename":
         p.update_renames({op[1]: op[2]})
         return p
+    if k == "rename-ow":
+        # update_renames(..., overwrite=True): every earlier renaming (scopes included) is undone, only this one remains
+        p.update_renames({op[1]: op[2]}, overwrite=True)
+        return p
+    if k == "nest1":
+        # nest with ONE exported name (new_output_name): the other outputs of the nested functions are not available any more
+        q = p.copy()
+        try:
+            q.nest_funcs(set(op[1]), new_output_name=op[2])
+        except ValueError as e:
+            if "Cannot combine" in str(e) and m.feats()["mapped"]:
+                raise Rejected(str(e)) from e
+            raise
+        return q
     if k == "rename-f":
         # the same renaming made through the FUNCTIONS (every function that has the name), not through the pipeline
         for f in list(p.functions):
@@ -417,6 +431,20 @@ def apply_model(m, op, q):  # noqa: C901, PLR0912
         m.groups.append(frozenset([f"j{n}"]))
         m.must.add(f"jo{n}")
         m.njoin += 1
+    elif k == "rename-ow":
+        tgt = inv[op[1]]
+        for n in m.M:
+            m.M[n] = n
+        m.M[tgt] = op[2]
+    elif k == "nest1":
+        prod = m.producers()
+        sel = {m.groups.index(m.group_of(prod[inv[o]])) for o in op[1]}
+        merged = frozenset().union(*(m.groups[i] for i in sel))
+        m.groups = [g for i, g in enumerate(m.groups) if i not in sel] + [merged]
+        gone = {o for o in m.group_outs(merged) if o != inv[op[2]]}
+        m.dropped |= gone
+        m.must -= gone
+        m.note_nests()
     elif k in ("rename", "rename-f"):
         m.M[inv[op[1]]] = op[2]
     elif k == "default":
@@ -546,6 +574,9 @@ def ops_of(p, m, hist, tier):  # noqa: C901, PLR0912
         ops.append(["rename", c, fresh(c)])
     for c in ([m.M[roots[0]]] if roots else []) + ([m.M[outs[0]]] if outs else []):
         ops.append(["rename-f", c, fresh(c)])  # through the functions (matters after pickle: back-references)
+    if (all(len(g) == 1 for g in m.groups) and not any(f.get("ren") for f in m.spec["funcs"]) and any(m.M[n] != n for n in roots + outs)
+            and not any(o[0] == "rename-ow" for o in hist) and outs):
+        ops.append(["rename-ow", m.M[outs[0]], fresh(m.M[outs[0]])])
     if m.fam == "dag" and roots and not any(o[0] == "default" for o in hist):
         ops.append(["default", m.M[roots[0]]])  # a default set AFTER construction (must survive copies, nesting, ...)
     # the scope name is a proper prefix of an existing name (first letter of the first output): "o" for o0, o1, ...;
@@ -581,6 +612,19 @@ def ops_of(p, m, hist, tier):  # noqa: C901, PLR0912
             if _convex_single_leaf(m, sel):
                 for inplace in (False, True):
                     ops.append(["nest", sorted(first_out[i] for i in sel), inplace])
+                if r == 2 and not any(o[0] == "nest1" for o in hist):
+                    # one exported name: the LAST output of the leaf function of the pair (the second one of a tuple output),
+                    # provided nothing outside the pair consumes another output of the pair
+                    gs = [m.groups[i] for i in sel]
+                    if all(len(g) == 1 for g in gs):
+                        edges = m.group_edges()
+                        leaf_i = next(i for i in sel if not any((i, j) in edges for j in sel))
+                        (leaf_name,) = m.groups[leaf_i]
+                        export = m.func(leaf_name)["outs"][-1]
+                        pair_outs = set().union(*(m.group_outs(g) for g in gs))
+                        outside = {p_ for j, g in enumerate(m.groups) if j not in sel for p_ in m.group_params(g)}
+                        if export not in m.dropped and not ((pair_outs - {export}) & outside):
+                            ops.append(["nest1", sorted(first_out[i] for i in sel), m.M[export]])
                 if r == n:
                     ops.append(["nest", "*", False])
                     ops.append(["nest", "*", True])
